@@ -82,7 +82,7 @@ def gen(rng, tier):
     memory = rng.random() < 0.15
     if memory:
         steps = [st for st in steps if st["op"] not in ("reopen", "restart")]
-    return {"gtf": gtf, "fmf": fmf, "steps": steps, "memory": memory, "fault_profile": rng.random() < (0.2 if not memory else 0.5), "fault_seed": rng.getrandbits(32)}
+    return {"gtf": gtf, "fmf": fmf, "steps": steps, "memory": memory, "warn_error": rng.random() < 0.2, "fault_profile": rng.random() < (0.2 if not memory else 0.5), "fault_seed": rng.getrandbits(32)}
 
 
 def run(case):
@@ -161,6 +161,12 @@ def run(case):
             req = {"op": k, "h": "h", "data": G.source_spec(None, st["feats"], form=st["form"], d=d_), "kw": kw}
             if gtf:
                 req["id_spec"] = id_spec
+            if case.get("warn_error") and not gtf and not (strat == "merge" and set(fmf) & set(["strand", "frame"])):
+                # the caller runs with warnings turned into errors (-W error, pytest filterwarnings=error): the outcome of a
+                # strategy must not depend on the warnings filter
+                req["warn_error"] = True
+                req["no_env"] = True
+                probes["warnings_filter_error"] = 1
             if k == "create":
                 req["db"] = ":memory:" if case.get("memory") else "a.db"
                 if case.get("memory"):
